@@ -8,6 +8,7 @@ import (
 	"fmt"
 	"sort"
 	"strings"
+	"sync"
 
 	"github.com/spq/pkappa2/internal/index"
 	"github.com/spq/pkappa2/internal/index/manager"
@@ -389,6 +390,22 @@ func (st *clientState) exec(op Op) (r OpResult) {
 		}
 		v.Release()
 		delete(st.views, op.V)
+	case "StormData":
+		// many viewers at once: op.V concurrent on-demand conversions of distinct
+		// streams with one converter (more callers than converter processes)
+		var wg sync.WaitGroup
+		for i := 0; i < op.V; i++ {
+			wg.Add(1)
+			go func(id uint64) {
+				defer wg.Done()
+				v := mgr.GetView()
+				defer v.Release()
+				if sc, err := v.Stream(id); err == nil && sc.Stream() != nil {
+					sc.Data(op.Conv)
+				}
+			}(uint64(i))
+		}
+		wg.Wait()
 	case "DropViews":
 		// the manager these views belong to is gone
 		st.views = map[int]*manager.View{}
